@@ -8,7 +8,8 @@ from mirsym.refsem import IR
 
 ROOTS = []        # this check uses its own dump (generic entry points instantiated by /verif/c20-harness)
 BUILDER_FNS = ['b_new', 'm_literal', 'm_path', 'm_paths', 'm_mode', 'o_literal', 'o_path', 'o_paths', 's_literal', 's_path', 's_paths', 's_mode', 'r_literal', 'r_path', 'r_paths']
-C20_ROOTS = ['c20_harness::compile_rasn', 'c20_harness::compile_ts'] + ['c20_harness::' + f for f in BUILDER_FNS]
+SWAP_FNS = ['tb_new', 'tm_literal', 'tm_mode', 'to_literal', 'ts_mode', 'x_to_ts', 'x_to_rasn']
+C20_ROOTS = ['c20_harness::compile_rasn', 'c20_harness::compile_ts'] + ['c20_harness::' + f for f in BUILDER_FNS + SWAP_FNS]
 ASSUMPTIONS = [
     "kernel: Compiler::<B, CompilerReady>::compile, output_generated and CompileResult::fmt for B = RasnBackend and TypescriptBackend, instantiated through the 10-line crate /verif/c20-harness and executed from real MIR",
     "stubs (nondeterministic, traced): internal_compile -> arbitrary Ok(CompileResult{generated: opaque text G}) or Err; B::format_bindings -> arbitrary Ok(F) / Err; Path::is_dir -> arbitrary bool; fs::write and Stdout::write_all -> arbitrary Ok / Err(io::Error); oracle on the trace of I/O calls",
@@ -21,7 +22,7 @@ def prepare():
 
 
 def jobs(tier, seed):
-    return ['kernel-rasn', 'kernel-ts', 'builder', 'native']
+    return ['kernel-rasn', 'kernel-ts', 'built', 'builder', 'native']
 
 
 # ---- stubs -------------------------------------------------------------------------------------------------------
@@ -78,7 +79,8 @@ def install_stubs():
 
     @model(r'^std::path::Path::is_dir$')
     def s_is_dir(ex, n, a, f):
-        r = ex.choose(2, 'is_dir') == 1
+        # 'fs_dir' (set by the built-compiler job): the state of the destination at this moment; otherwise arbitrary per call
+        r = ex.ghost['fs_dir'] if 'fs_dir' in ex.ghost else ex.choose(2, 'is_dir') == 1
         ex.io_trace.append(('is_dir', ex.deref(a[0]), r))
         return r
 
@@ -235,18 +237,55 @@ def mk_compiler(ex, prog, fn, mode, backend_val):
     return Adt(comp_ty, 0, vals)
 
 
-def job_kernel(prog, chk, which, tier):
+BUILDS = {   # name -> (calls before compile, backend that compiles)
+    'rasn: mode, literal': (['b_new', 'm_mode', 'o_literal'], 'rasn'),
+    'rasn: literal, mode': (['b_new', 'm_literal', 's_mode'], 'rasn'),
+    'ts: mode, literal': (['tb_new', 'tm_mode', 'to_literal'], 'ts'),
+    'ts: literal, mode': (['tb_new', 'tm_literal', 'ts_mode'], 'ts'),
+    'rasn: mode, literal, with_backend(ts)': (['b_new', 'm_mode', 'o_literal', 'x_to_ts'], 'ts'),
+    'rasn: literal, mode, with_backend(ts)': (['b_new', 'm_literal', 's_mode', 'x_to_ts'], 'ts'),
+    'ts: mode, literal, with_backend(rasn)': (['tb_new', 'tm_mode', 'to_literal', 'x_to_rasn'], 'rasn'),
+    'ts: literal, mode, with_backend(rasn)': (['tb_new', 'tm_literal', 'ts_mode', 'x_to_rasn'], 'rasn'),
+}
+
+
+def job_built(prog, chk, tier):
+    """the compiler is BUILT by the real builder calls (from MIR) while the destination may be or become a directory:
+    the state of the destination is a ghost variable chosen before the builder calls and chosen again before compile();
+    the text must go to generated.<ext of the backend that generates> inside the directory that exists at compile()"""
+    for name, (calls, which) in BUILDS.items():
+        job_kernel(prog, chk, which, tier, build=(name, calls))
+
+
+def job_kernel(prog, chk, which, tier, build=None):
     install_stubs()
     fn = prog.find('c20_harness::compile_' + which)
     ext = '.rs' if which == 'rasn' else '.ts'
-    for mode in ('file', 'stdout', 'none'):
+    for mode in ('file', 'stdout', 'none') if build is None else ('file',):
         def run(ex):
-            c = mk_compiler(ex, prog, fn, mode, None)
+            if build is None:
+                c = mk_compiler(ex, prog, fn, mode, None)
+            else:
+                ex.ghost['fs_dir'] = ex.choose(2, 'destination is a directory while the compiler is built') == 1
+                c = None
+                for call in build[1]:
+                    g = prog.find('c20_harness::' + call)
+                    if call.endswith('_new'):
+                        c = ex.call(g, [])
+                    elif call.endswith('_mode'):
+                        om = prog.inst[g]['locals'][2]
+                        c = ex.call(g, [c, Adt(om, prog.variant_index(om, 'SingleFile'), [PathV('OUT')])])
+                    elif call.endswith('_literal'):
+                        c = ex.call(g, [c, StringV([ord(x) for x in 'L0'])])
+                    else:
+                        c = ex.call(g, [c, Opaque('backend')])
+                ex.ghost['fs_dir'] = ex.choose(2, 'destination is a directory when compile() runs') == 1
+                ex.ghost['fs_dir_compile'] = ex.ghost['fs_dir']
             r = ex.call(fn, [c])
             return r
         rs = chk.explore(run)
         for r in rs:
-            sig = f"C20 {which} mode={mode}"
+            sig = f"C20 {which} mode={mode}" if build is None else f"C20 built[{build[0]}]"
             if r.kind == 'panic':
                 chk.violation(sig + ' panic', f"compile() panics: {r.value[0]} after I/O {[t[0] for t in r.io]}", {'kind': 'kernel', 'io': [str(t)[:80] for t in r.io]})
                 continue
@@ -292,7 +331,10 @@ def job_kernel(prog, chk, which, tier):
                         problems.append(f"written text is {chars_repr(content)!r} / {tags}, expected exactly the {'formatted' if want_tag == 'F' else 'compiled'} text")
                     if w[0] == 'fs::write':
                         isdir = [t for t in r.io if t[0] == 'is_dir']
-                        want_path = 'OUT/generated' + ext if (isdir and isdir[-1][2]) else 'OUT'
+                        if 'fs_dir_compile' in r.ghost:
+                            want_path = 'OUT/generated' + ext if r.ghost['fs_dir_compile'] else 'OUT'
+                        else:
+                            want_path = 'OUT/generated' + ext if (isdir and isdir[-1][2]) else 'OUT'
                         got_path = w[1].name if isinstance(w[1], PathV) else repr(w[1])
                         if got_path != want_path:
                             problems.append(f"written to {got_path}, expected {want_path}")
@@ -318,8 +360,8 @@ BAD = "M DEFINITIONS AUTOMATIC TAGS ::= BEGIN A ::= SEQUENCE { a INTEGER (0..5),
 EMPTY = "Empty-Module DEFINITIONS AUTOMATIC TAGS ::= BEGIN END"
 
 
-def native_case(runner, backend, state, existing, source):
-    return runner.call({'cmd': 'compile_file', 'sources': [source], 'backend': backend, 'state': state, 'existing': existing})
+def native_case(runner, backend, state, existing, source, mode_first=False, swap=False):
+    return runner.call({'cmd': 'compile_file', 'sources': [source], 'backend': backend, 'state': state, 'existing': existing, 'mode_first': mode_first, 'swap': swap})
 
 
 def judge_native(o, state, existing, good):
@@ -335,7 +377,7 @@ def judge_native(o, state, existing, good):
         want = existing if state in ('existing', 'dir-existing') else None
         if o.get('content') != want:
             probs.append(f"compilation failed but the destination changed: {str(o.get('content'))[:60]!r}")
-        if state in ('absent', 'dir', 'missing-parent') and o.get('entries'):
+        if state in ('absent', 'dir', 'late-dir', 'missing-parent') and o.get('entries'):
             probs.append(f"compilation failed but files were created: {o.get('entries')}")
         return probs
     if state == 'missing-parent':
@@ -369,6 +411,22 @@ def job_native(prog, chk, tier):
                     kind = ('longer ' if len(existing) > 1000 else 'shorter ') if existing else ''
                     chk.violation(f"C20 native {backend} {kind}{state} {'empty' if src is EMPTY else 'good' if good else 'malformed'} input", '; '.join(probs),
                                   {'kind': 'compile_file', 'backend': backend, 'state': state, 'existing': existing, 'source': src})
+            # the same destinations when the compiler is built in the other call order, built for the other backend and
+            # swapped with with_backend, or when the destination directory appears only after the compiler was built
+            for state in ('absent', 'dir', 'late-dir'):
+                for mode_first in (False, True):
+                    for swap in (False, True):
+                        if not (mode_first or swap or state == 'late-dir'):
+                            continue
+                        o = native_case(runner, backend, state, '', GOOD, mode_first, swap)
+                        chk.res.obligations += 1
+                        probs = judge_native(o, state, '', True)
+                        if not probs:
+                            chk.res.discharged += 1
+                            chk.res.diff_ok += 1
+                            continue
+                        chk.violation(f"C20 native {backend} {state} built[{'mode first' if mode_first else 'sources first'}{', with_backend' if swap else ''}]", '; '.join(probs),
+                                      {'kind': 'compile_file', 'backend': backend, 'state': state, 'existing': '', 'source': GOOD, 'mode_first': mode_first, 'swap': swap})
         chk.witness('native destinations exercised', True)
     finally:
         runner.close()
@@ -384,7 +442,7 @@ def replay_file(path):
         return 1
     runner = native.Runner()
     try:
-        o = native_case(runner, rp['backend'], rp['state'], rp['existing'], rp['source'])
+        o = native_case(runner, rp['backend'], rp['state'], rp['existing'], rp['source'], rp.get('mode_first', False), rp.get('swap', False))
     finally:
         runner.close()
     probs = judge_native(o, rp['state'], rp['existing'], rp['source'] != BAD)
@@ -478,6 +536,8 @@ def run_job(prog_main, job, tier, seed):
     chk = Checker(prog, job)
     if job.startswith('kernel-'):
         job_kernel(prog, chk, job[7:], tier)
+    elif job == 'built':
+        job_built(prog, chk, tier)
     elif job == 'builder':
         job_builder(prog, chk, tier)
     else:
